@@ -129,7 +129,53 @@ func ruleDomainMessage(p *Prog, r *Report) {
 		} else {
 			r.unk(rule, "anchor:DataMessage.systemBytes", "", "field systemBytes not found")
 		}
-		if hasField(fn, 0, "name") {
+		if hasField(fn, 0, "name") && len(stringRangeSites(fn)) == 0 {
+			// the name is not walked rune by rune in checkRep itself (a library
+			// search, a helper): evaluate checkRep on an otherwise valid message
+			// whose name holds one character, for every white-space character
+			// and for representatives of everything else
+			key := rule + ":ast.(*DataMessage).checkRep:name-runes"
+			var reps []rune
+			for c := rune(0); c < 0x3100; c++ {
+				if unicode.IsSpace(c) {
+					reps = append(reps, c)
+				}
+			}
+			nSpace := len(reps)
+			reps = append(reps, 0, 8, 14, 31, '!', 'a', 'Z', '0', '_', 127, 0x84, 0x86, 0x9F, 0xA1, 0xFF, 0x167F, 0x1681, 0x1FFF, 0x200B, 0x200C, 0x2027, 0x202A, 0x202E, 0x2030, 0x205E, 0x2060, 0x2FFF, 0x3001, 0xFEFF, 0xFFFD, 0x10000)
+			var bad, undec []string
+			for _, c := range reps {
+				for _, v := range []string{string(c), "ab" + string(c), string(c) + "ab", "a" + string(c) + "b"} {
+					in := NewInterp(p)
+					in.PathBind["p0.name"] = strVal(v)
+					in.PathBind["p0.stream"] = int64Val(1)
+					in.PathBind["p0.function"] = int64Val(1)
+					in.PathBind["p0.waitBit"] = int64Val(0)
+					in.PathBind["p0.sessionID"] = int64Val(-1)
+					in.PathBind["p0.direction"] = strVal("H->E")
+					in.PathBind["p0.systemBytes"] = Val{K: KSlice, S: "p0.systemBytes", Len: 4}
+					in.PathBind["len(p0.systemBytes)"] = int64Val(4)
+					out := in.Run(fn, defaultArgs(fn), nil)
+					space := unicode.IsSpace(c)
+					switch {
+					case len(in.Stuck) > 0 || (out.CanReturn && out.CanPanic):
+						undec = append(undec, fmt.Sprintf("name %q: not determined", v))
+					case space && out.CanReturn:
+						bad = append(bad, fmt.Sprintf("the name %q (with %#U) is accepted but must be refused (domain: no rune of the message name is white space)", v, c))
+					case !space && !out.CanReturn:
+						bad = append(bad, fmt.Sprintf("the name %q (with %#U) is refused but must be accepted (domain: no rune of the message name is white space)", v, c))
+					}
+				}
+			}
+			switch {
+			case len(bad) > 0:
+				r.bad(rule, key, p.Pos(fn.Pos()), strings.Join(firstN(bad, 3), "; "))
+			case len(undec) > 0:
+				r.unk(rule, key, p.Pos(fn.Pos()), strings.Join(firstN(undec, 3), "; "))
+			default:
+				r.ok(rule, key, p.Pos(fn.Pos()), fmt.Sprintf("evaluated on otherwise valid messages whose name holds one character (alone, first, last, in the middle): refused for each of the %d white-space characters, accepted for %d representatives of everything else (neighbours of every white-space range, controls, letters, format characters)", nSpace, len(reps)-nSpace))
+			}
+		} else if hasField(fn, 0, "name") {
 			var ws []int64
 			for c := rune(0); c < 0x3100; c++ {
 				if unicode.IsSpace(c) {
